@@ -126,10 +126,12 @@ const (
 	opUnmarshalInPlace
 	opReplaceDuringAll
 	opRemoveDuringAll
+	opReparseMember
+	opSetFilenameMember
 	nOps
 )
 
-var opNames = []string{"Add", "Remove", "Get", "Map+mutate", "All", "All+break", "Collect+mutate-original", "MarshalCedar", "JSON-round-trip", "Cedar-round-trip", "LoadDocument", "UnmarshalJSON-into-live-set", "All+replace-others-during-iteration", "All+remove-others-during-iteration"}
+var opNames = []string{"Add", "Remove", "Get", "Map+mutate", "All", "All+break", "Collect+mutate-original", "MarshalCedar", "JSON-round-trip", "Cedar-round-trip", "LoadDocument", "UnmarshalJSON-into-live-set", "All+replace-others-during-iteration", "All+remove-others-during-iteration", "re-parse-a-member-in-place", "SetFilename-on-a-member"}
 
 type op struct {
 	kind   opKind
@@ -145,8 +147,10 @@ func (o op) String() string {
 	switch o.kind {
 	case opAdd:
 		return fmt.Sprintf("Add(%q, pool[%d] fresh=%v)", ids[o.id], o.pol, o.fresh)
-	case opRemove, opGet:
+	case opRemove, opGet, opSetFilenameMember:
 		return fmt.Sprintf("%s(%q)", opNames[o.kind], ids[o.id])
+	case opReparseMember:
+		return fmt.Sprintf("%s(%q, pool[%d])", opNames[o.kind], ids[o.id], o.pol)
 	case opLoadDoc:
 		return fmt.Sprintf("LoadDocument(pool%v layout%v)", o.doc, o.layout)
 	case opUnmarshalInPlace:
@@ -164,7 +168,14 @@ func (o op) String() string {
 func genOp(t *verifsim.Tape) op {
 	o := op{}
 	// weights: mutations are frequent
-	switch x := t.Intn(23); {
+	switch x := t.Intn(25); {
+	case x == 24:
+		o.kind = opSetFilenameMember
+		o.id = t.Intn(len(ids))
+	case x == 23:
+		o.kind = opReparseMember
+		o.id = t.Intn(len(ids))
+		o.pol = t.Intn(len(pool))
 	case x == 22:
 		o.kind = opRemoveDuringAll
 	case x == 21:
@@ -278,6 +289,15 @@ func (st *state) sortedIDs() []cedar.PolicyID {
 
 func viol(kind, format string, a ...any) *core.Violation {
 	return core.Violationf(kind, kind, format, a...)
+}
+
+func isPoolProto(p *cedar.Policy) bool {
+	for i := range pool {
+		if pool[i].proto == p {
+			return true
+		}
+	}
+	return false
 }
 
 func freshPolicy(i int) *cedar.Policy {
@@ -649,6 +669,48 @@ func (st *state) apply(o op, r *core.Run) *core.Violation {
 			}
 		}
 		r.Count("reach.replace_during_iteration")
+	case opReparseMember:
+		// the owner of a policy object may overwrite it in place; the set holds the object
+		// (never the harness' shared pool objects: other steps add them again unchanged)
+		if p := st.live.Get(id); p != nil && !isPoolProto(p) {
+			if err := p.UnmarshalCedar([]byte(poolText[o.pol])); err != nil {
+				return viol("reparse-error", "re-parsing a member policy failed: %v", err)
+			}
+			e := st.model[id]
+			if e == nil {
+				return viol("get-wrong", "Get(%q) returns a policy, the model has none", id)
+			}
+			if e.ptr == nil {
+				e.ptr = p // identity was unknown after a reload; it is this object now
+			}
+			// the same object may be registered under several ids: all of them change
+			for _, other := range st.model {
+				if other.ptr == p {
+					other.text, other.pos = pool[o.pol].text, nil
+				}
+			}
+			r.Count("reach.member_reparsed_in_place")
+		}
+	case opSetFilenameMember:
+		if p := st.live.Get(id); p != nil && !isPoolProto(p) {
+			p.SetFilename("renamed.cedar")
+			if e := st.model[id]; e != nil {
+				if e.ptr == nil {
+					e.ptr = p
+				}
+				for _, other := range st.model {
+					if other.ptr == p && other.pos != nil {
+						np := *other.pos
+						np.Filename = "renamed.cedar"
+						other.pos = &np
+					}
+				}
+				if got := p.Position().Filename; got != "renamed.cedar" {
+					return viol("filename-missing", "SetFilename on %q did not take effect: %q", id, got)
+				}
+			}
+			r.Count("reach.member_renamed")
+		}
 	case opRemoveDuringAll:
 		// like ranging over a plain map: an entry removed before the iteration reaches it
 		// is never produced
